@@ -460,7 +460,10 @@ def main():
             agg['runs'] += z['runs']; agg['sweep_runs'] += z['sweep_runs']; agg['steps'] += z['steps']; agg['violations_raw'] += z['violations']
             agg['faults'].update(z['faults']); agg['probes'].update(z['probes']); agg['obs'].update(z.get('obs', {}))
             agg['distinct'].update((c['mset'], h) for h in z['distinct'])
-            agg['extra'][c['id']] = z.get('extra', {})
+            ex_ = z.get('extra', {})
+            if isinstance(ex_, dict) and 'distinct_interleavings_this_worker' in ex_:
+                agg['probes']['distinct_interleavings(sum over workers of distinct yield/switch sequences)'] += ex_['distinct_interleavings_this_worker']
+            agg['extra'][c['id']] = ex_
             for s_ in recs.get('S', []):
                 if len(agg['samples']) < 6:
                     agg['samples'].append({'config': c['id'], 'run': s_['run'], 'seed': s_['seed'], 'plan': s_['plan']})
